@@ -34,9 +34,12 @@ fn main() {
             let mut g = Gen { rng: Rng(seed ^ 0xA5A5_5A5A_0000_0000), out: vec![] };
             match prop {
                 "C01" => c01::generate(&mut g, tier),
+                "C02" => gens::gen_c02(&mut g, tier),
                 "C03" => gens::gen_c03(&mut g, tier),
                 "C04" => gens::gen_c04(&mut g, tier),
+                "C05" => gens::gen_c05(&mut g, tier),
                 "C06" => gens::gen_c06(&mut g, tier),
+                "C07" => gens::gen_c07(&mut g, tier),
                 "C08" => gens::gen_c08(&mut g, tier),
                 _ => {
                     eprintln!("unknown property {}", prop);
